@@ -2,82 +2,47 @@
 (***************************************************************************)
 (* C12 -- negation normal form and disjunctive normal form.                *)
 (*                                                                         *)
-(* Expressions are the UPJ records of UPExpr ([op, args, name, v, vars]).  *)
 (* The propositional structure of an expression is made of the operators   *)
 (* not / and / or / implies / iff; everything else (fluents, constants,    *)
-(* comparisons, equalities) is an ATOM.                                    *)
+(* comparisons, equalities) is an ATOM.  Expressions are handled as         *)
+(* SKELETONS over a table A of atoms (A[i] is a full UPExpr record):        *)
+(*    <<0, i>> atom A[i]      <<1, x>> not         <<2, x, y, ...>> and      *)
+(*    <<3, x, y, ...>> or     <<4, x, y>> implies  <<5, x, y>> iff           *)
+(* Expand(A, sk) is the UPExpr record a skeleton stands for.  The meaning   *)
+(* of an atom is UPExpr!Eval in a context R = [P, keys]; the truth table of *)
+(* a skeleton is computed from the truth tables of its atoms (TT), and      *)
+(* TTAgreesWithEval states that this is the same as evaluating the expanded *)
+(* record with UPExpr!Eval (checked by TLC in NormalFormsEnum).             *)
 (*                                                                         *)
 (* Declarative layer (what C12 states):                                    *)
 (*   IsLiteral, IsNNF, IsDNF   the shapes                                  *)
-(*   Equiv(R, e, f)            e and f have the same (defined, Boolean)    *)
-(*                             value under EVERY valuation of the ground   *)
-(*                             fluents of the context R over their finite  *)
-(*                             declared domains (truth table on states,    *)
-(*                             not on opaque atoms: 1 <= 2 is true)        *)
+(*   equivalence               equal truth tables over EVERY valuation of  *)
+(*                             the ground fluents of R over their finite   *)
+(*                             declared domains (states, not opaque atoms: *)
+(*                             1 <= 2 is true in every state)              *)
 (*                                                                         *)
 (* Mechanism layer (shaped like unified_planning/model/walkers/dnf.py):    *)
-(*   MNnf(e, p)     Nnf.get_nnf_expression: polarity pushed to the atoms,  *)
+(*   MNnf(sk, p)    Nnf.get_nnf_expression: polarity pushed to the atoms,  *)
 (*                  implies / iff expanded as the code expands them        *)
-(*   MTerms(R,e,b)  Dnf.walk_and / walk_or / walk_all on the NNF: a        *)
+(*   MTerms(..)     Dnf.walk_and / walk_or / walk_all on the NNF: a        *)
 (*                  sequence of terms (sequences of literals); every       *)
 (*                  product term goes through an abstract sound simplifier *)
 (*                  MSimp (valid literals dropped; a term with an          *)
 (*                  unsatisfiable literal dropped)                         *)
-(*   MDnf(R,e,b)    Or over And over MTerms                                *)
-(* b = TRUE is walk_and AS WRITTEN in the pinned tree: a product term that *)
-(* simplifies to true makes walk_and return the EMPTY term list (= false). *)
-(* b = FALSE is the repaired design: it returns the list holding the one   *)
-(* empty term (= true).  The design check (NormalFormsEnum, T1) shows that *)
-(* the repaired mechanism satisfies the declarative layer on every         *)
-(* enumerated expression and that the as-written one does not.             *)
+(*   MDnf(..)       Or over And over MTerms                                *)
+(* bug = TRUE is walk_and AS WRITTEN in the pinned tree: a product term    *)
+(* that simplifies to true makes walk_and return the EMPTY term list       *)
+(* (= false).  bug = FALSE is the repaired design: it returns the list     *)
+(* holding the one empty term (= true).                                    *)
 (***************************************************************************)
 EXTENDS UPExpr
 
-BoolOps == {"not", "and", "or", "implies", "iff"}
-IsAtom(e) == e.op \notin BoolOps
-IsLiteral(e) == IsAtom(e) \/ (e.op = "not" /\ IsAtom(e.args[1]))
-
-RECURSIVE IsNNF(_)
-IsNNF(e) == \/ IsLiteral(e)
-            \/ /\ e.op \in {"and", "or"}
-               /\ \A i \in DOMAIN e.args : IsNNF(e.args[i])
-
-\* a conjunction of literals (flat), or a single literal
-IsTerm(e) == \/ IsLiteral(e)
-             \/ e.op = "and" /\ \A i \in DOMAIN e.args : IsLiteral(e.args[i])
-\* a disjunction (flat) of conjunctions of literals
-IsDNF(e) == \/ IsTerm(e)
-            \/ e.op = "or" /\ \A i \in DOMAIN e.args : IsTerm(e.args[i])
-
-\* ---------- truth tables over the states of a context ----------
-\* R = [P |-> UPJ problem, keys |-> ground fluents]; every ground fluent ranges over its type
-KeyDom(R, i) == ValsOfType(R.P, Fl(R.P, R.keys[i][1]).type)
-States(R) == {s \in [DOMAIN R.keys -> UNION {KeyDom(R, i) : i \in DOMAIN R.keys}] :
-                 \A i \in DOMAIN R.keys : s[i] \in KeyDom(R, i)}
-NoEnv == <<>>
-\* the truth table of e: the set of states where e holds; "ill" when e is not Boolean-valued somewhere
-BoolEverywhere(R, e, S) == \A s \in S : Eval(R, e, s, NoEnv).k = "b"
-Models(R, e, S) == {s \in S : Eval(R, e, s, NoEnv).b}
-EquivOn(R, e, f, S) == /\ BoolEverywhere(R, e, S) /\ BoolEverywhere(R, f, S)
-                       /\ Models(R, e, S) = Models(R, f, S)
-Equiv(R, e, f) == EquivOn(R, e, f, States(R))
-ValidOn(R, e, S) == \A s \in S : Holds(R, e, s, NoEnv)
-UnsatOn(R, e, S) == \A s \in S : ~Holds(R, e, s, NoEnv)
-
-\* ---------- constructors (uniform record shape) ----------
-Mk(op, args) == [op |-> op, args |-> args, name |-> "", v |-> UNDEF, vars |-> <<>>]
-ConstB(b) == [op |-> "const", args |-> <<>>, name |-> "", v |-> BV(b), vars |-> <<>>]
-ConstN(n) == [op |-> "const", args |-> <<>>, name |-> "", v |-> NV(n, 1), vars |-> <<>>]
-FluentE(n) == [op |-> "fluent", args |-> <<>>, name |-> n, v |-> UNDEF, vars |-> <<>>]
-ObjE(n) == [op |-> "obj", args |-> <<>>, name |-> n, v |-> UNDEF, vars |-> <<>>]
-\* ExpressionManager.And / Or of a list: empty -> constant, singleton -> the element
-AndL(ts) == IF Len(ts) = 0 THEN ConstB(TRUE) ELSE IF Len(ts) = 1 THEN ts[1] ELSE Mk("and", ts)
-OrL(ts) == IF Len(ts) = 0 THEN ConstB(FALSE) ELSE IF Len(ts) = 1 THEN ts[1] ELSE Mk("or", ts)
-
-\* ---------- compact transport format ----------
-\* a skeleton over an atom table A (sequence of atoms): <<0, i>> is A[i]; <<1, x>> not;
-\* <<2, x, y, ...>> and; <<3, x, y, ...>> or; <<4, x, y>> implies; <<5, x, y>> iff
+\* ---------- skeletons ----------
 SkOps == <<"not", "and", "or", "implies", "iff">>
+BoolOps == {SkOps[i] : i \in DOMAIN SkOps}
+IsAtom(e) == e.op \notin BoolOps
+Mk(op, args) == [op |-> op, args |-> args, name |-> "", v |-> UNDEF, vars |-> <<>>]
+Kids(sk) == 2..Len(sk)
 RECURSIVE Expand(_, _)
 Expand(A, sk) == IF sk[1] = 0 THEN A[sk[2]]
                  ELSE Mk(SkOps[sk[1]], TLCEval([i \in 1..(Len(sk) - 1) |-> Expand(A, sk[i + 1])]))
@@ -86,63 +51,108 @@ RECURSIVE SkOK(_, _)
 SkOK(A, sk) == /\ Len(sk) >= 2 /\ sk[1] \in 0..5
                /\ IF sk[1] = 0 THEN Len(sk) = 2 /\ sk[2] \in DOMAIN A /\ IsAtom(A[sk[2]])
                   ELSE /\ (sk[1] = 1 => Len(sk) = 2) /\ (sk[1] \in {4, 5} => Len(sk) = 3)
-                       /\ \A i \in 2..Len(sk) : SkOK(A, sk[i])
+                       /\ \A i \in Kids(sk) : SkOK(A, sk[i])
+AtomSk(i) == <<0, i>>
+NotSk(x) == <<1, x>>
+\* ExpressionManager.And / Or of a list: empty -> constant, singleton -> the element
+\* (tI, fI: indices of the Boolean constants true and false in the atom table)
+AndL(ts, tI) == IF Len(ts) = 0 THEN AtomSk(tI) ELSE IF Len(ts) = 1 THEN ts[1] ELSE <<2>> \o ts
+OrL(ts, fI) == IF Len(ts) = 0 THEN AtomSk(fI) ELSE IF Len(ts) = 1 THEN ts[1] ELSE <<3>> \o ts
+
+\* ---------- declarative layer: shapes ----------
+IsLiteral(sk) == sk[1] = 0 \/ (sk[1] = 1 /\ sk[2][1] = 0)
+RECURSIVE IsNNF(_)
+IsNNF(sk) == \/ IsLiteral(sk)
+             \/ sk[1] \in {2, 3} /\ \A i \in Kids(sk) : IsNNF(sk[i])
+\* a conjunction of literals (flat), or a single literal
+IsTerm(sk) == IsLiteral(sk) \/ (sk[1] = 2 /\ \A i \in Kids(sk) : IsLiteral(sk[i]))
+\* a disjunction (flat) of conjunctions of literals
+IsDNF(sk) == IsTerm(sk) \/ (sk[1] = 3 /\ \A i \in Kids(sk) : IsTerm(sk[i]))
+
+\* ---------- declarative layer: truth tables over the states of a context ----------
+\* R = [P |-> UPJ problem, keys |-> ground fluents]; every ground fluent ranges over its type
+KeyDom(R, i) == ValsOfType(R.P, Fl(R.P, R.keys[i][1]).type)
+States(R) == {s \in [DOMAIN R.keys -> UNION {KeyDom(R, i) : i \in DOMAIN R.keys}] :
+                 \A i \in DOMAIN R.keys : s[i] \in KeyDom(R, i)}
+NoEnv == <<>>
+\* SS: the states as a sequence; a truth table is the set of indices of the states where the
+\* expression holds.  AtomTT / AtomBool: per atom, by UPExpr!Eval.
+AtomTT(R, A, SS) == [i \in DOMAIN A |-> {k \in DOMAIN SS : Holds(R, A[i], SS[k], NoEnv)}]
+AtomBool(R, A, SS) == [i \in DOMAIN A |-> \A k \in DOMAIN SS : Eval(R, A[i], SS[k], NoEnv).k = "b"]
+\* T = AtomTT(..), N = DOMAIN SS
+RECURSIVE TT(_, _, _)
+TT(T, N, sk) ==
+   CASE sk[1] = 0 -> T[sk[2]]
+     [] sk[1] = 1 -> N \ TT(T, N, sk[2])
+     [] sk[1] = 2 -> {k \in N : \A i \in Kids(sk) : k \in TT(T, N, sk[i])}
+     [] sk[1] = 3 -> UNION {TT(T, N, sk[i]) : i \in Kids(sk)}
+     [] sk[1] = 4 -> (N \ TT(T, N, sk[2])) \cup TT(T, N, sk[3])
+     [] sk[1] = 5 -> LET x == TT(T, N, sk[2])
+                         y == TT(T, N, sk[3])
+                     IN (x \cap y) \cup (N \ (x \cup y))
+RECURSIVE AtomsOf(_)
+AtomsOf(sk) == IF sk[1] = 0 THEN {sk[2]} ELSE UNION {AtomsOf(sk[i]) : i \in Kids(sk)}
+\* the expression has a (defined) Boolean value in every state
+BoolEverywhere(B, sk) == \A i \in AtomsOf(sk) : B[i]
+\* the lemma that ties TT to UPExpr!Eval
+TTAgreesWithEval(R, A, SS, sk) ==
+   LET e == Expand(A, sk) IN
+   /\ \A k \in DOMAIN SS : Eval(R, e, SS[k], NoEnv).k = "b"
+   /\ TT(AtomTT(R, A, SS), DOMAIN SS, sk) = {k \in DOMAIN SS : Eval(R, e, SS[k], NoEnv).b}
 
 \* ---------- mechanism layer: Nnf.get_nnf_expression ----------
 RECURSIVE MNnf(_, _)
-MNnf(e, p) ==
-   CASE e.op = "not" -> MNnf(e.args[1], ~p)
-     [] e.op = "and" -> Mk(IF p THEN "and" ELSE "or", TLCEval([i \in DOMAIN e.args |-> MNnf(e.args[i], p)]))
-     [] e.op = "or" -> Mk(IF p THEN "or" ELSE "and", TLCEval([i \in DOMAIN e.args |-> MNnf(e.args[i], p)]))
-     [] e.op = "implies" -> Mk(IF p THEN "or" ELSE "and", <<MNnf(e.args[1], ~p), MNnf(e.args[2], p)>>)
-     [] e.op = "iff" ->
-           LET both == Mk(IF p THEN "and" ELSE "or", <<MNnf(e.args[1], p), MNnf(e.args[2], p)>>)
-               none == Mk(IF p THEN "and" ELSE "or", <<MNnf(e.args[1], ~p), MNnf(e.args[2], ~p)>>)
-           IN Mk(IF p THEN "or" ELSE "and", <<both, none>>)
-     [] OTHER -> IF p THEN e ELSE Mk("not", <<e>>)
+MNnf(sk, p) ==
+   CASE sk[1] = 0 -> IF p THEN sk ELSE NotSk(sk)
+     [] sk[1] = 1 -> MNnf(sk[2], ~p)
+     [] sk[1] = 2 -> <<IF p THEN 2 ELSE 3>> \o TLCEval([i \in 1..(Len(sk) - 1) |-> MNnf(sk[i + 1], p)])
+     [] sk[1] = 3 -> <<IF p THEN 3 ELSE 2>> \o TLCEval([i \in 1..(Len(sk) - 1) |-> MNnf(sk[i + 1], p)])
+     [] sk[1] = 4 -> <<IF p THEN 3 ELSE 2, MNnf(sk[2], ~p), MNnf(sk[3], p)>>
+     [] sk[1] = 5 -> LET both == <<IF p THEN 2 ELSE 3, MNnf(sk[2], p), MNnf(sk[3], p)>>
+                         none == <<IF p THEN 2 ELSE 3, MNnf(sk[2], ~p), MNnf(sk[3], ~p)>>
+                     IN <<IF p THEN 3 ELSE 2, both, none>>
 
-\* ---------- mechanism layer: Dnf.walk on an NNF expression ----------
-Flatten(ss) == LET RECURSIVE F(_) F(i) == IF i > Len(ss) THEN <<>> ELSE ss[i] \o F(i + 1) IN F(1)
+\* ---------- mechanism layer: Dnf.walk on an NNF skeleton ----------
+Flatten(ss) == LET RECURSIVE F(_) F(i) == IF i > Len(ss) THEN <<>> ELSE ss[i] \o F(i + 1) IN TLCEval(F(1))
 \* all ways to pick one term from each of the term lists tls (itertools.product), concatenated
 RECURSIVE Product(_)
 Product(tls) ==
    IF Len(tls) = 0 THEN << <<>> >>
    ELSE LET rest == Product(Tail(tls))
             hd == Head(tls)
-        IN TLCEval(Flatten([i \in DOMAIN hd |-> [j \in DOMAIN rest |-> hd[i] \o rest[j]]]))
-\* abstract sound simplifier of one conjunction of literals over the states S:
+        IN Flatten([i \in DOMAIN hd |-> [j \in DOMAIN rest |-> hd[i] \o rest[j]]])
+LitTT(T, N, l) == IF l[1] = 0 THEN T[l[2]] ELSE N \ T[l[2][2]]
+\* abstract sound simplifier of one conjunction of literals:
 \* "T" every literal valid; "F" some literal unsatisfiable; else the literals that are not valid
-MSimp(R, lits, S) ==
-   LET keep == {i \in DOMAIN lits : ~ValidOn(R, lits[i], S)} IN
-   IF \E i \in DOMAIN lits : UnsatOn(R, lits[i], S) THEN [k |-> "F", t |-> <<>>]
+MSimp(T, N, lits) ==
+   LET keep == {i \in DOMAIN lits : LitTT(T, N, lits[i]) # N} IN
+   IF \E i \in DOMAIN lits : LitTT(T, N, lits[i]) = {} THEN [k |-> "F", t |-> <<>>]
    ELSE IF keep = {} THEN [k |-> "T", t |-> <<>>]
-   ELSE [k |-> "t", t |-> LET RECURSIVE Sel(_) Sel(i) == IF i > Len(lits) THEN <<>>
-                                        ELSE (IF i \in keep THEN <<lits[i]>> ELSE <<>>) \o Sel(i + 1)
-                              IN Sel(1)]
+   ELSE [k |-> "t", t |-> Flatten([i \in DOMAIN lits |-> IF i \in keep THEN <<lits[i]>> ELSE <<>>])]
 RECURSIVE MTerms(_, _, _, _)
-MTerms(R, e, S, bug) ==
-   IF e.op = "or" THEN TLCEval(Flatten([i \in DOMAIN e.args |-> MTerms(R, e.args[i], S, bug)]))
-   ELSE IF e.op = "and" THEN
-      LET prod == Product(TLCEval([i \in DOMAIN e.args |-> MTerms(R, e.args[i], S, bug)]))
-          simp == TLCEval([i \in DOMAIN prod |-> MSimp(R, prod[i], S)])
+MTerms(T, N, sk, bug) ==
+   IF sk[1] = 3 THEN Flatten([i \in 1..(Len(sk) - 1) |-> MTerms(T, N, sk[i + 1], bug)])
+   ELSE IF sk[1] = 2 THEN
+      LET prod == Product(TLCEval([i \in 1..(Len(sk) - 1) |-> MTerms(T, N, sk[i + 1], bug)]))
+          simp == TLCEval([i \in DOMAIN prod |-> MSimp(T, N, prod[i])])
       IN IF \E i \in DOMAIN simp : simp[i].k = "T"
          THEN (IF bug THEN <<>> ELSE << <<>> >>)
-         ELSE TLCEval(Flatten([i \in DOMAIN simp |-> IF simp[i].k = "F" THEN <<>> ELSE <<simp[i].t>>]))
-   ELSE <<<<e>>>>
-MDnf(R, e, S, bug) ==
-   LET ts == MTerms(R, MNnf(e, TRUE), S, bug) IN OrL(TLCEval([i \in DOMAIN ts |-> AndL(ts[i])]))
+         ELSE Flatten([i \in DOMAIN simp |-> IF simp[i].k = "F" THEN <<>> ELSE <<simp[i].t>>])
+   ELSE << <<sk>> >>
+MDnf(T, N, sk, bug, tI, fI) ==
+   LET ts == MTerms(T, N, MNnf(sk, TRUE), bug) IN OrL(TLCEval([i \in DOMAIN ts |-> AndL(ts[i], tI)]), fI)
 
 \* ---------- the input feature that triggers the as-written walk_and branch ----------
-\* some DNF term of the NNF expression e consists of valid literals only
+\* some DNF term of the NNF skeleton consists of valid literals only
 RECURSIVE HasValidTerm(_, _, _)
-HasValidTerm(R, e, S) ==
-   IF e.op = "or" THEN \E i \in DOMAIN e.args : HasValidTerm(R, e.args[i], S)
-   ELSE IF e.op = "and" THEN \A i \in DOMAIN e.args : HasValidTerm(R, e.args[i], S)
-   ELSE ValidOn(R, e, S)
-\* some conjunction inside the NNF expression e has a product term made of valid literals only
+HasValidTerm(T, N, sk) ==
+   IF sk[1] = 3 THEN \E i \in Kids(sk) : HasValidTerm(T, N, sk[i])
+   ELSE IF sk[1] = 2 THEN \A i \in Kids(sk) : HasValidTerm(T, N, sk[i])
+   ELSE LitTT(T, N, sk) = N
+\* some conjunction inside the NNF skeleton has a product term made of valid literals only
 RECURSIVE HasValidProductTerm(_, _, _)
-HasValidProductTerm(R, e, S) ==
-   /\ e.op \in {"and", "or"}
-   /\ \/ e.op = "and" /\ HasValidTerm(R, e, S)
-      \/ \E i \in DOMAIN e.args : HasValidProductTerm(R, e.args[i], S)
+HasValidProductTerm(T, N, sk) ==
+   /\ sk[1] \in {2, 3}
+   /\ \/ sk[1] = 2 /\ HasValidTerm(T, N, sk)
+      \/ \E i \in Kids(sk) : HasValidProductTerm(T, N, sk[i])
 =============================================================================
